@@ -4,6 +4,7 @@ package keeper
 
 import (
 	"bytes"
+	"context"
 	"time"
 
 	storetypes "cosmossdk.io/store/types"
@@ -16,6 +17,7 @@ import (
 	abci "github.com/cometbft/cometbft/abci/types"
 	tmprotocrypto "github.com/cometbft/cometbft/proto/tendermint/crypto"
 	clienttypes "github.com/cosmos/ibc-go/v10/modules/core/02-client/types"
+	conntypes "github.com/cosmos/ibc-go/v10/modules/core/03-connection/types"
 	channeltypes "github.com/cosmos/ibc-go/v10/modules/core/04-channel/types"
 
 	"github.com/cosmos/interchain-security/v7/x/ccv/consumer/types"
@@ -248,3 +250,44 @@ func VerifC08ConsumerReports() {
 	vh.Assert(e.k.OnRecvVSCPacket(e.ctx, packet, ccv.ValidatorSetChangePacketData{ValidatorUpdates: []abci.ValidatorUpdate{{PubKey: vcPubKey(3), Power: 1}}, ValsetUpdateId: 10, SlashAcks: []string{a0.String()}}) == nil, "C08.consumer.recv")
 	vh.Assert(!e.k.OutstandingDowntime(e.ctx, a0), "C08.consumer.ack-clears-the-outstanding-report")
 }
+
+// ---- exported face of the consumer environment for harnesses in package consumer
+
+type vcConnKeeper struct{ clients map[string]string }
+
+func (c vcConnKeeper) GetConnection(ctx sdk.Context, connectionID string) (conntypes.ConnectionEnd, bool) {
+	cl, ok := c.clients[connectionID]
+	if !ok {
+		return conntypes.ConnectionEnd{}, false
+	}
+	return conntypes.ConnectionEnd{ClientId: cl}, true
+}
+
+type vcCore struct{ opened []*channeltypes.MsgChannelOpenInit }
+
+func (c *vcCore) ChannelOpenInit(goCtx context.Context, msg *channeltypes.MsgChannelOpenInit) (*channeltypes.MsgChannelOpenInitResponse, error) {
+	c.opened = append(c.opened, msg)
+	return &channeltypes.MsgChannelOpenInitResponse{ChannelId: "channel-77"}, nil
+}
+
+type VerifConsumerEnv struct {
+	Ctx  sdk.Context
+	K    *Keeper
+	e    *vcEnv
+	core *vcCore
+}
+
+// VerifNewConsumerEnv: consumer keeper with connection-0 built on the provider
+// client 07-tendermint-0, connection-1 on another client; no CCV channel known to IBC yet.
+func VerifNewConsumerEnv() *VerifConsumerEnv {
+	e := newVCEnv()
+	core := &vcCore{}
+	e.k.connectionKeeper = vcConnKeeper{clients: map[string]string{"connection-0": "07-tendermint-0", "connection-1": "07-tendermint-1"}}
+	e.k.ibcCoreKeeper = core
+	return &VerifConsumerEnv{Ctx: e.ctx, K: &e.k, e: e, core: core}
+}
+
+func (h *VerifConsumerEnv) AddChannel(id string, hops []string) {
+	h.e.ch.channels[id] = channeltypes.Channel{State: channeltypes.OPEN, ConnectionHops: hops}
+}
+func (h *VerifConsumerEnv) TransferChannelsOpened() int { return len(h.core.opened) }
